@@ -138,7 +138,7 @@ def _case(draw):
         "features": draw(st.lists(st.booleans(), min_size=4, max_size=4)),
         "undo": draw(st.integers(0, 2)) == 0,
         "split_ip": draw(st.integers(0, 3)) == 0,
-        "lines": [l.replace("\n", " ") for l in lines],
+        "lines": [l.replace("\n", " ") if draw(st.integers(0, 7)) else l.replace("\n", " ").replace(" ", draw(st.sampled_from(["\x0b", "\x0c", "\x1c", "\x1d", "\x85", "\u2028", "\r", "\t"])), 1) for l in lines],
     }
 
 
